@@ -97,6 +97,8 @@ func c08(r *core.Run) {
 
 	root := p.FuncsOfPkg("")
 	c08ListenersWired(r, "O7", root)
+	r.Rule("V1", "each listener registered is the one called (shared with C15.C1 / C16.V1): no closure created in a loop and handed on captures a variable the loop re-assigns (the module's go version gives loops one variable for all iterations) - wrappers built around the entries of Handler.Listeners would all call the listener of the last entry", 1)
+	loopCaptureRule(r, "V1", "every wrapper registered from this loop calls the listener of the last iteration: the resource's own listener is never called and another pattern's listener receives its events")
 	r.Rule("O9", "listeners are the ones registered now (shared with C06.R6): the handler lookup every event-sending resource comes from writes no shared state - in particular it does not memoise matches (Match.Listeners is a snapshot of the node's listener slice; a cached match never sees a listener added later)", 1)
 	c06PureLookup(r, "O9")
 	r.Rule("O8", "an event that was applied is published: each event funnel (the functions handing their subject parameter to Conn.Publish) publishes, or hands the message to another funnel, on every path to its return - the only exit without a publish is the error edge of the payload's json.Marshal; a funnel that returns early on a state or configuration test makes apply and listeners run around a publish that never happens", 1)
@@ -515,6 +517,113 @@ func c08(r *core.Run) {
 			}
 			r.Check(nEmptyArg > 0, "O3", fname, "tests-empty-argument", p.Pos(fn.Pos()), "an empty change map is detected", "an empty change map is not detected: an empty change event is published")
 			r.Check(nEmptyRev > 0, "O3", fname, "tests-empty-revert-map", p.Pos(fn.Pos()), "an apply handler reporting 'nothing changed' (empty revert map) is detected", "an apply handler reporting that nothing changed is ignored: an event is published for a change that changes nothing")
+			// ... and those are the only ways to leave without an event: every return of the method that
+			// no publish can precede lies behind the empty-argument or the empty-revert-map edge. A further
+			// "nothing really changed" shortcut (revert map equal to the change, values compared) drops
+			// events the apply handler did not declare void - and comparing interface values can panic
+			// between the apply and the publish
+			{
+				afterP := map[*ssa.BasicBlock]bool{}
+				var mark func(b *ssa.BasicBlock)
+				mark = func(b *ssa.BasicBlock) {
+					if afterP[b] {
+						return
+					}
+					afterP[b] = true
+					for _, sc := range b.Succs {
+						mark(sc)
+					}
+				}
+				hasP := map[*ssa.BasicBlock]bool{}
+				for _, bb := range fn.Blocks {
+					for _, in := range bb.Instrs {
+						pl := isPL(in)
+						if c, ok := in.(ssa.CallInstruction); ok && !pl {
+							if cal := c.Common().StaticCallee(); cal != nil && inScope[cal] && cal != fn {
+								for _, b2 := range cal.Blocks {
+									for _, i2 := range b2.Instrs {
+										if isPL(i2) {
+											pl = true
+										}
+									}
+								}
+							}
+						}
+						if pl {
+							hasP[bb] = true
+							for _, sc := range bb.Succs {
+								mark(sc)
+							}
+						}
+					}
+				}
+				bad := ""
+				for _, ret := range core.Returns(fn) {
+					if afterP[ret.Block()] || hasP[ret.Block()] {
+						continue
+					}
+					documented := false
+					// docd: the bool value having this truth value means "empty change map" or "empty revert
+					// map" - directly, or as a flag every compatible input of which does (publish :=
+					// len(changed) > 0; ...; publish = old == nil || len(old) > 0; if !publish { return })
+					var docd func(v ssa.Value, truth bool, d int) bool
+					docd = func(v ssa.Value, truth bool, d int) bool {
+						if d > 4 {
+							return false
+						}
+						if what, succ := kindOf(v); what != "" {
+							return (succ == 0) == truth
+						}
+						switch x := v.(type) {
+						case *ssa.UnOp:
+							if x.Op == token.NOT {
+								return docd(x.X, !truth, d+1)
+							}
+						case *ssa.Phi:
+							n := 0
+							for _, src := range phiSources(x) {
+								if isConstBool(src.V, !truth) {
+									continue
+								}
+								n++
+								if isConstBool(src.V, truth) {
+									okEdge := false
+									for _, e2 := range srcEdges(x, src) {
+										c2, s2 := e2.Norm()
+										if docd(c2, s2 == 0, d+1) {
+											okEdge = true
+										}
+									}
+									if !okEdge {
+										return false
+									}
+									continue
+								}
+								if !docd(src.V, truth, d+1) {
+									return false
+								}
+							}
+							return n > 0
+						}
+						return false
+					}
+					for _, ed := range dominatingEdges(ret) {
+						for _, ft := range edgeFacts(ed) {
+							what, succ := kindOf(ft.V)
+							if what != "" && (succ == 0) == ft.True {
+								documented = true
+							}
+						}
+						if cnd, succ := ed.Norm(); docd(cnd, succ == 0, 0) {
+							documented = true
+						}
+					}
+					if !documented {
+						bad = p.InstrPos(ret)
+					}
+				}
+				r.Check(bad == "", "O3", fname, "silent-return-only-for-an-empty-change-or-revert-map", p.Pos(fn.Pos()), "every return that no publish precedes lies behind the empty-argument or the empty-revert-map edge", "the method can return without publishing (return at "+bad+") on an edge that is neither the empty change map nor the empty revert map: an applied change is not announced (and a comparison of the handler's values on the way there can panic after the apply)")
+			}
 		}
 		// an apply handler that panics has failed: the panic leaves the event method (and is turned
 		// into an error reply by the request's own recover); a recover inside the event method or its
